@@ -600,7 +600,7 @@ fn drive<R: HRole>(rng: &mut Rng, role_n: u64, ver: u64, bias: u64, abuse: bool,
                     };
                     let mut b = bytes_of(&cp);
                     if cv == 3 && b.len() > 8 {
-                        b[8] = 3; // unsupported protocol level
+                        b[8] = *rng.pick(&[3u8, 3, 6, 0, 0x84, 0x85]); // unsupported protocol level
                     }
                     let b = if rng.chance(1, 12) { mutate(rng, b) } else { b };
                     feed(&mut run, rng, b, &mut g, &mut st, abuse);
@@ -1085,7 +1085,7 @@ pub fn gen_recv_matrix(out: &mut Vec<String>, st: &mut CaseStats) -> u64 {
                 };
                 for as_client in sides {
                     for nib in 0..16u64 {
-                        let levels: &[u64] = if cver == 0 && nib == 1 { &[4, 5, 3, 6] } else { &[4] };
+                        let levels: &[u64] = if cver == 0 && nib == 1 { &[4, 5, 3, 6, 0, 0x84, 0x85, 0x83, 0xff] } else { &[4] };
                         for level in levels {
                             let line = match role_n {
                                 0 => recv_cell::<role::Client>(role_n, cver, status, *as_client, nib, *level, st),
